@@ -330,8 +330,11 @@ def tyParamsOKc : Ty → Params → Bool
 def refsPrecede (fields : List Field) : Bool :=
   fields.zipIdx.all (fun (fd, i) => !fd.params.openType || (fields.take i).any (fun g => g.name == fd.params.refField))
 
+/-- an OPTIONAL component has a Go type that can be nil (the library asks `IsNil` of it, a trap on any other kind) -/
+def optsNillable (fields : List Field) : Bool := fields.all (fun fd => !fd.params.optional || nillable fd.ty)
+
 def specOKc (env : Env) : Bool :=
-  env.all (fun sd => refsPrecede sd.fields && sd.fields.all (fun fd => tyParamsOKc fd.ty fd.params))
+  env.all (fun sd => refsPrecede sd.fields && optsNillable sd.fields && sd.fields.all (fun fd => tyParamsOKc fd.ty fd.params))
 
 theorem tyParamsOKc_refValue (x : Option Int) : ∀ (ty : Ty) (p : Params),
     tyParamsOKc ty { p with refValue := x } = tyParamsOKc ty p := by
@@ -459,28 +462,32 @@ theorem isNil_of_not_present (v : Val) (h : presentB v = false) : isNil v = true
 
 /-- 19.2/19.3 completeness: where the mandatory components are present the model writes the bitmap -/
 theorem optBitmap_total : ∀ (fields : List Field) (fs : List Val), fs.length = fields.length →
+    fields.all (fun fd => !fd.params.optional || nillable fd.ty) = true →
     (List.zip fields fs).all (fun (fd, v) => fd.params.optional || (match v with | .nil => false | _ => true)) = true →
     optBitmap fields fs = .ok ((List.zip fields fs).filterMap (fun (fd, v) =>
       if fd.params.optional then some (match v with | .nil => false | _ => true) else none)) := by
   intro fields
   induction fields with
   | nil =>
-    intro fs hl _
+    intro fs hl _ _
     cases fs with
     | nil => rfl
     | cons v vs => simp at hl
   | cons fd frest ih =>
-    intro fs hl hall
+    intro fs hl hnil hall
     cases fs with
     | nil => simp at hl
     | cons v vs =>
       simp only [List.length_cons, Nat.add_right_cancel_iff] at hl
       simp only [List.zip_cons_cons, List.all_cons, Bool.and_eq_true] at hall
       obtain ⟨h1, h2⟩ := hall
+      simp only [List.all_cons, Bool.and_eq_true] at hnil
+      obtain ⟨hn1, hn2⟩ := hnil
       simp only [optBitmap, List.zip_cons_cons, List.filterMap_cons]
-      rw [ih vs hl h2]
+      rw [ih vs hl hn2 h2]
       by_cases ho : fd.params.optional = true
-      · simp only [ho, if_true]
+      · have hnl : nillable fd.ty = true := by simpa [ho] using hn1
+        simp only [ho, if_true, hnl, Bool.not_true, Bool.false_eq_true, if_false]
         rw [notNil_eq]
         rfl
       · simp only [ho, if_false, Bool.false_eq_true]
@@ -766,6 +773,7 @@ theorem specSeq_total (env : Env) (fuel : Nat)
     (sd : StructDef) (pre : Bits) (pos1 : Nat) (fs : List Val) (out : Bits)
     (hok : ∀ fd ∈ sd.fields, tyParamsOK env fd.ty fd.params = true ∧ tyParamsOKc fd.ty fd.params = true)
     (hpre : refsPrecede sd.fields = true)
+    (hnil : sd.fields.all (fun fd => !fd.params.optional || nillable fd.ty) = true)
     (hreg : regularFields env fuel sd.fields fs = true)
     (h : specSeq enc gov sd pre pos1 fs = some out) : ∃ body, encSeq f rfv sd pos1 fs = .ok body := by
   unfold specSeq at h
@@ -778,7 +786,7 @@ theorem specSeq_total (env : Env) (fuel : Nat)
     · rename_i hall
       have hall' := Classical.not_not.mp hall
       dsimp only at h
-      have hbm0 := optBitmap_total sd.fields fs hl' hall'
+      have hbm0 := optBitmap_total sd.fields fs hl' hnil hall'
       generalize hbmv : (List.filterMap (fun (x : Field × Val) =>
         match x with
         | (fd, v) => if fd.params.optional then some (match v with | .nil => false | _ => true) else none)
@@ -898,12 +906,12 @@ theorem specChoice_total (env : Env) (fuel : Nat)
   · simp at h
 
 theorem specOKc_field (env : Env) (hwf : specOKc env = true) (id : Nat) (sd : StructDef) (hsd : env[id]? = some sd) :
-    refsPrecede sd.fields = true ∧ ∀ fd ∈ sd.fields, tyParamsOKc fd.ty fd.params = true := by
+    refsPrecede sd.fields = true ∧ optsNillable sd.fields = true ∧ ∀ fd ∈ sd.fields, tyParamsOKc fd.ty fd.params = true := by
   unfold specOKc at hwf
   rw [List.all_eq_true] at hwf
   have := hwf sd (List.mem_of_getElem? hsd)
-  rw [Bool.and_eq_true, List.all_eq_true] at this
-  exact this
+  rw [Bool.and_eq_true, Bool.and_eq_true, List.all_eq_true] at this
+  exact ⟨this.1.1, this.1.2, this.2⟩
 
 /-- **Completeness**: the encoder model encodes (with the same bits) every regular value the specification encodes -/
 theorem encode_complete (env : Env) (hwf : specOK env = true) (hwfc : specOKc env = true) :
@@ -974,7 +982,7 @@ theorem encode_complete (env : Env) (hwf : specOK env = true) (hwfc : specOKc en
         simp only [tyParamsOK] at hok
         rw [structOK_eq env id params sd hsd] at hok
         have hfields := specOK_field env hwf id sd hsd
-        obtain ⟨hprec, hfieldsc⟩ := specOKc_field env hwfc id sd hsd
+        obtain ⟨hprec, hnilf, hfieldsc⟩ := specOKc_field env hwfc id sd hsd
         have hboth : ∀ fd ∈ sd.fields, tyParamsOK env fd.ty fd.params = true ∧ tyParamsOKc fd.ty fd.params = true :=
           fun fd hfd => ⟨hfields fd hfd, hfieldsc fd hfd⟩
         by_cases hch : isChoice sd = true
@@ -985,7 +993,7 @@ theorem encode_complete (env : Env) (hwf : specOK env = true) (hwfc : specOKc en
           exact ⟨_, rfl⟩
         · simp only [hch, if_false, Bool.not_false, if_true, Bool.false_eq_true] at h hreg hok ⊢
           obtain ⟨body, hb⟩ := specSeq_total env fuel (encField env fuel) (Spec.X691.encode env fuel) (refFieldValue env fuel)
-            (Spec.X691.governor env fuel) (governor_total env fuel) ih sd _ _ fs bits hboth hprec hreg h
+            (Spec.X691.governor env fuel) (governor_total env fuel) ih sd _ _ fs bits hboth hprec hnilf hreg h
           rw [hb]
           exact ⟨_, rfl⟩
     · -- pointer
